@@ -102,12 +102,15 @@ def popBatch (ids : List J) : List Key → List Key
 marked as a response -/
 def unsent (msg : String) : Exc := .proto (invalidRequest msg)
 
-/-- `JSONRPCConnection._receive_response(result, request_id)` -/
+/-- `JSONRPCConnection._receive_response(result, request_id)`: a `bool` is never an id we issued
+(`True == 1`), otherwise the id is looked up in `_requests` -/
 def receiveResponse (g : Guards) (c : Conn) (result : RespVal) (rid : J) : Conn × R Recv :=
   let known : R Bool :=
-    match pyIn rid (singleKeys c.out) with
-    | .ok b => .ok b
-    | .error e => if e.caughtBy g.lookup then .ok false else .error (.py e)
+    if rid.isBool then .ok false
+    else
+      match pyIn rid (singleKeys c.out) with
+      | .ok b => .ok b
+      | .error e => if e.caughtBy g.lookup then .ok false else .error (.py e)
   match known with
   | .error e => (c, .error e)
   | .ok false => (c, .error (unsent "response to unsent request"))
